@@ -239,6 +239,51 @@ theorem overshoot_tight :
     (Abs.run 1 2 { S := 0, th := [⟨1, .idle⟩, ⟨1, .idle⟩] } [.thread 0, .thread 1, .thread 0, .thread 1]).S = 2 := by
   decide
 
+/-! ## what the driver executes: the general flow slot (throttling rules, ns clock, reloads)
+
+The driver runs `reloadG` / `entryG` / `runSchedG` (`Model/FlowReject.lean`, last section), which also handle
+throttling rules in the chain and reloading. On reject-only rule lists and a first load they *are* the core
+definitions used above, so every theorem of this file speaks about the executed code paths. -/
+
+/-- **executed = core**: a first `LoadRules` of reject rules followed by any monotone arrival history through
+the general slot (`clock a.t`, then `entryG`) gives exactly the decisions of the core model. -/
+theorem executed_eq_core (rules : List Rule) (hk : ∀ r ∈ rules, r.kind = .reject) (t0 : Nat) (as : List Arrival)
+    (hm : MonoA t0 as) :
+    (runG (reloadG {} rules t0 0) (t0 * nsPerMs) as).2 = (runEntries (load rules t0) as).2 := by
+  rw [reloadG_eq_load rules hk, runG_eq_runEntries _ (load_rejectOnly rules hk t0) t0 as hm]
+
+/-- **C02 `admit_iff` for the executed definitions** (reject-only rule list outside the known finding) -/
+theorem admit_iff_executed (rules : List Rule) (hk : ∀ r ∈ rules, r.kind = .reject)
+    (hreg : ∀ c ∈ compile rules, c.inFinding = false) (t0 : Nat) (h0 : 0 < t0) (as : List Arrival) (hm : MonoA t0 as) :
+    (runG (reloadG {} rules t0 0) (t0 * nsPerMs) as).2 = (refRun demanded (compile rules) [] as).2 := by
+  rw [executed_eq_core rules hk t0 as hm, admit_iff_partial rules hreg t0 h0 as hm]
+
+/-- **throttling rules in the chain**: the walk over a resource's controllers is one function (`chainG`) shared
+by the model and by the reference, so for pairwise related controller lists whose reject rules answer alike
+from the current millisecond on, decision, clock after the sleeps and updated `lastPassedTime`s coincide — in
+particular a reject rule listed after a throttling rule that queued the request is still asked, at the
+advanced time. -/
+theorem chain_model_eq_ref {α β : Type} (A : ChainOps α) (B : ChainOps β) (R : α → β → Prop)
+    (hrule : ∀ a b, R a b → A.rule a = B.rule b ∧ A.idx a = B.idx b ∧ A.last a = B.last b)
+    (hset : ∀ a b l, R a b → R (A.setLast a l) (B.setLast b l))
+    (res bt : Nat) (as : List α) (bs : List β) (hR : List.Forall₂ R as bs) (t : Nat)
+    (hblk : ∀ a b, R a b → ∀ ms, t / nsPerMs ≤ ms → A.blocks a ms bt = B.blocks b ms bt) :
+    (chainG A res bt as t).2 = (chainG B res bt bs t).2 ∧
+    List.Forall₂ R (chainG A res bt as t).1 (chainG B res bt bs t).1 :=
+  chainG_rel A B R hrule hset res bt as bs hR t hblk
+
+/-- a queued request does reach the reject rule behind the throttling rule (threshold 3 after a 1024/s
+    throttler, fourth request at t = 1 s): blocked by rule 1, after having slept 976563 ns three times -/
+theorem throttle_then_reject_sample :
+    let s0 := reloadG {} [{ res := 1, thr := .frac 1024 1, iv := 0, kind := .throttle 500 }, { res := 1, thr := .frac 3 1, iv := 0 }] 1000 0
+    let t0 := 1000 * nsPerMs
+    let x1 := entryG s0 1 t0 1
+    let x2 := entryG x1.1 1 x1.2.1 1
+    let x3 := entryG x2.1 1 x2.2.1 1
+    let x4 := entryG x3.1 1 x3.2.1 1
+    (x1.2.2, x2.2.2, x3.2.2, x4.2.2) = (none, none, none, some 1) ∧ x4.2.1 = t0 + 3 * 976563 := by
+  decide
+
 /-! ## the known finding `assoc-standalone-own-traffic` -/
 
 /-- the witness configuration: a rule on resource 1, associated with resource 2, threshold 2, interval 3000
